@@ -278,12 +278,51 @@ bool applyOp(NifFile& nif, Model& m, const OpSpec& op) {
 }
 
 // one checked step: model from the (already verified) library state, apply, compare
+// second, independent view for the random sequences: the reference slots a block *serialises* (recorded by the write hook on a clone),
+// whether or not its enumerators report them.  Every slot of a surviving block designates the object it designated before the edit,
+// or nothing when that object was deleted.
+static bool g_serialisedSlotsToo = false;
+std::string serialisedSlotsKept(const GraphSnap& g0, const GraphSnap& g1, std::string& site) {
+	std::set<NiObject*> alive;
+	for (auto& b : g1.blocks) if (b.obj) alive.insert(b.obj);
+	for (auto& a : g0.blocks) {
+		if (!a.obj || !alive.count(a.obj)) continue;
+		const BlockSnap& b = g1.blocks[g1.index.at(a.obj)];
+		std::vector<NiObject*> ta, tb;
+		for (auto t : a.slotTarget) if (t && alive.count(t)) ta.push_back(t);
+		for (auto t : b.slotTarget) if (t) tb.push_back(t);
+		if (ta != tb) {
+			site = "serialised-slot/" + a.type;
+			size_t k = 0;
+			while (k < ta.size() && k < tb.size() && ta[k] == tb[k]) k++;
+			auto nm = [&](const GraphSnap& g, NiObject* o) { return o && g.has(o) ? g.blocks[g.index.at(o)].type + fmt("#%zu", g.index.at(o)) : std::string("nothing"); };
+			return fmt("%s: serialised reference %zu designated %s before the edit and designates %s afterwards (%zu / %zu non-empty slots)", a.type.c_str(), k, k < ta.size() ? nm(g0, ta[k]).c_str() : "nothing",
+					   k < tb.size() ? nm(g1, tb[k]).c_str() : "nothing", ta.size(), tb.size());
+		}
+	}
+	return "";
+}
+
 bool step(NifFile& nif, const OpSpec& op, const std::string& hist) {
 	Model m = buildModel(nif);
 	R_phase(opStr(op).c_str());
+	bool serial = g_serialisedSlotsToo && op.k != REPLACE && nif.GetHeader().GetNumBlocks() <= 160;
+	GraphSnap g0;
+	if (serial) g0 = snapshotGraph(nif);
 	if (!applyOp(nif, m, op)) return true;
 	R_eval();
 	R_stat("edits_checked");
+	if (serial) {
+		GraphSnap g1 = snapshotGraph(nif);
+		std::string ssite;
+		std::string serr = serialisedSlotsKept(g0, g1, ssite);
+		R_stat("edits_with_serialised_slots_compared");
+		if (!serr.empty()) {
+			const char* kn2[] = {"AddBlock", "DeleteBlock", "ReplaceBlock", "SetBlockOrder", "DeleteBlockByType", "DeleteUnreferencedBlocks", "NifFile::DeleteUnreferencedBlocks", "DeleteBlock(NiRef)"};
+			R_viol("edit-vs-model", std::string(kn2[op.k]) + "/" + ssite, hist + " -> " + opStr(op) + ": " + serr);
+			return false;
+		}
+	}
 	std::string site;
 	std::string err = compareState(nif, m, site);
 	if (!err.empty()) {
@@ -485,6 +524,7 @@ void run(size_t idx) {
 		if (!err.empty() && site.rfind("type-table", 0) != 0) { R_stat("initial_state_rejected"); return; }
 	}
 	bool ok = true;
+	g_serialisedSlotsToo = true;
 	for (int k = 0; k < p.seqLen && ok; k++) {
 		auto& hdr = n.GetHeader();
 		uint32_t nb = hdr.GetNumBlocks();
